@@ -105,7 +105,7 @@ static Result run_c09(const Case &c) {
     if (c.get("reseal")) r.cls("resealed");
     // 1. is_invalid_fragment_header: always
     {
-        ExactBuf hb(std::vector<uint8_t>(f.begin(), f.begin() + 80));
+        InBuf hb(std::vector<uint8_t>(f.begin(), f.begin() + 80), c.get("ro", 0) != 0);
         int v = is_invalid_fragment_header(hb.p);
         if (memcmp(hb.p, f.data(), 80)) r.fail("is_invalid_fragment_header modified the header");
         if ((v != 0) != !acc) r.fail(std::string("is_invalid_fragment_header says ") + (v ? "invalid" : "valid") + " but the reference predicate says " + (acc ? "acceptable" : "unacceptable"));
@@ -117,7 +117,7 @@ static Result run_c09(const Case &c) {
         if (swapped) eff_size = bswap32(eff_size);
         bool safe = !acc || f[ref::O_CT] != 2 || eff_size <= f.size() - 80;
         if (safe) {
-            ExactBuf fb(f);
+            InBuf fb(f, c.get("ro", 0) != 0);
             fragment_metadata_t md;
             memset(&md, 0x77, sizeof md);
             int rc = liberasurecode_get_fragment_metadata(fb.p, &md);
@@ -199,6 +199,7 @@ static Case gen_c09() {
         c.set("comp_ver", v);
         c.set("comp_unsealed", coin(2, 3) ? 1 : 0);
     }
+    c.set("ro", coin() ? 1 : 0);       // inputs on read-only pages (a query may not write into a fragment, not even temporarily)
     return c;
 }
 // all 640 single-bit flips (no reseal, and re-sealed std) for a set of base headers
@@ -217,6 +218,7 @@ static void sweep_c09() {
             c.set("data_cls", BUF_HIGH); c.set("data_seed", 11 + frag); c.set("data_len", 123);
             c.set("frag", frag); c.set("legacy", legacy);
             c.setl("ops", {M_FLIP, bit, 0}); c.set("reseal", reseal); c.set("reseal_arg", 0);
+            c.set("ro", (counter / 3) & 1);
             sweep_case(c, run_c09);
         }
     stats().exhaustive = true;
@@ -292,7 +294,7 @@ static Result run_c10(const Case &c) {
     bool want_mismatch = ref::crc32_std(f.data() + 80, paylen) != stored && ref::crc32_legacy(f.data() + 80, paylen) != stored;
     set_env(renv);
     {
-        ExactBuf fb(f);
+        InBuf fb(f, c.get("ro", 0) != 0);
         fragment_metadata_t md; memset(&md, 0x77, sizeof md);
         int rc = liberasurecode_get_fragment_metadata(fb.p, &md);
         if (rc != 0) r.fail("get_fragment_metadata failed rc=" + std::to_string(rc));
@@ -310,7 +312,7 @@ static Result run_c10(const Case &c) {
     if (c.get("twin", 0)) {
         std::vector<uint8_t> tw = f;
         make_twin(tw.data(), legacy && (c.get("carg") & 1));
-        ExactBuf tb(tw);
+        InBuf tb(tw, c.get("ro", 0) != 0);
         fragment_metadata_t md; memset(&md, 0x55, sizeof md);
         int rc = liberasurecode_get_fragment_metadata(tb.p, &md);
         if (rc != 0) r.fail("get_fragment_metadata failed on the opposite-endian image rc=" + std::to_string(rc));
@@ -342,6 +344,7 @@ static Case gen_c10() {
     c.set("ckind", weighted({2, 4, 2, 2, 2, 1}));
     c.set("carg", pick(0, 1 << 24));
     c.set("cval", pick(0, 1 << 24));
+    c.set("ro", coin() ? 1 : 0);       // inputs on read-only pages (a query may not write into a fragment, not even temporarily)
     return c;
 }
 // every single-bit flip of short payloads
@@ -425,7 +428,8 @@ static Result run_c11(const Case &c) {
     std::vector<uint8_t> tw = f;
     make_twin(tw.data(), env_legacy(wenv) && (c.get("carg") & 1));
     if (unsealed) put32(&tw[ref::O_MCRC], 0);
-    ExactBuf fa(f), fb(tw);
+    InBuf fa(f, c.get("ro", 0) != 0), fb(tw, c.get("ro", 0) != 0);
+    if (c.get("ro", 0)) r.cls("read_only_inputs");
     fragment_metadata_t ma, mb; memset(&ma, 0x11, sizeof ma); memset(&mb, 0x22, sizeof mb);
     set_env(renv);
     int ra = liberasurecode_get_fragment_metadata(fa.p, &ma);
@@ -468,6 +472,7 @@ static Case gen_c11() {
         c.set("libver", v);
         c.set("libver_seal", ((uint32_t)v < ref::V120 ? coin(1, 3) : coin(4, 5)) ? 1 : 0);
     }
+    c.set("ro", coin() ? 1 : 0);       // inputs on read-only pages (a query may not write into a fragment, not even temporarily)
     return c;
 }
 
@@ -490,7 +495,7 @@ static Result run_c12(const Case &c) {
     // every fragment just encoded validates as good for its own instance
     if (same) {
         for (int i = 0; i < nj; i++) {
-            ExactBuf fb(b.s.frags[i]);
+            InBuf fb(b.s.frags[i], c.get("ro", 0) != 0);
             if (is_invalid_fragment(vdesc, fb.p) != 0) { r.fail("fragment " + std::to_string(i) + " just encoded by the instance is reported invalid"); break; }
         }
         std::vector<const std::vector<uint8_t> *> frs;
@@ -521,7 +526,7 @@ static Result run_c12(const Case &c) {
     }
     bool want_invalid = ref::fragment_invalid(gi, running, f.data());
     {
-        ExactBuf fb(f);
+        InBuf fb(f, c.get("ro", 0) != 0);
         int inv = is_invalid_fragment(vdesc, fb.p);
         if ((inv != 0) != want_invalid)
             r.fail(std::string("is_invalid_fragment=") + std::to_string(inv) + " but the reference verdict is " + (want_invalid ? "invalid" : "valid") +
@@ -573,6 +578,7 @@ static Case gen_c12() {
     c.set("edit", weighted({1, 5, 3, 3, 3, 1, 2, 2, 1}));
     c.set("earg", pick(0, 1ll << 31));
     c.set("wenv", weighted({6, 1, 1, 3, 1}));
+    c.set("ro", coin() ? 1 : 0);       // inputs on read-only pages (a query may not write into a fragment, not even temporarily)
     return c;
 }
 
